@@ -64,6 +64,12 @@ var c14Pairs = [][2]string{
 	{`{{ j: x, a }}`, `{{ j(x, a) }}`},
 	{`{{ x | h | g: a }}`, `{{ g(h(x), a) }}`},
 	{`{{ x | h | g(a, _) | h }}`, `{{ h(g(a, h(x))) }}`},
+	{`{{ x | js(undef, _, a) }}`, `{{ js(undef, x, a) }}`},
+	{`{{ x | js(a, undef, _) }}`, `{{ js(a, undef, x) }}`},
+	{`{{ x | js: undef, a }}`, `{{ js(x, undef, a) }}`},
+	{`{{ x | pf }}`, `{{ pf(x) }}`},
+	{`{{ x | pf: a }}`, `{{ pf(x, a) }}`},
+	{`{{ x | vv }}`, `{{ vv(x) }}`},
 }
 
 func c14Vars(x, a, b string) VarMap {
@@ -78,6 +84,9 @@ func c14Vars(x, a, b string) VarMap {
 	vars.Set("r", c14Recv{"r"})
 	vars.Set("p", &c14Recv{"p"})
 	vars.SetFunc("j", c14JetFunc)
+	vars.SetFunc("js", c18IsSetPattern)
+	vars.Set("pf", func(format string, rest ...interface{}) string { return "pf(" + format + ";" + ndItoa(len(rest)) + ")" })
+	vars.Set("vv", func(rest ...string) string { return "vv(" + strings.Join(rest, ",") + ")" })
 	return vars
 }
 
@@ -97,7 +106,9 @@ func H_C14_forms() {
 	vfAssert(e1 == nil && e2 == nil, "both forms evaluate")
 	vfNote(o1)
 	vfAssert(o1 == o2, "the surface form is equivalent to the plain call")
-	vfAssert(hxContains(o2, x), "the piped value reaches the function")
+	if !hxContains(c14Pairs[p][0], "js") {
+		vfAssert(hxContains(o2, x), "the piped value reaches the function")
+	}
 }
 
 // H_C14_errors: a wrong argument count, an invalid value, two slots, or a slot without a
